@@ -329,9 +329,15 @@ func (pf *Portfolio) Close() {
 
 // Check decides satisfiability of the conjunction. wantModel: return values for all symbols on sat.
 func (pf *Portfolio) Check(asserts []*Term, timeoutMs int, wantModel bool) (Verdict, Model, string) {
+	v, m, _, who := pf.CheckSyms(asserts, timeoutMs, wantModel)
+	return v, m, who
+}
+
+// CheckSyms is Check that also returns the symbol terms (variables, UF applications) of the query.
+func (pf *Portfolio) CheckSyms(asserts []*Term, timeoutMs int, wantModel bool) (Verdict, Model, []*Term, string) {
 	for _, a := range asserts {
 		if a == TFalse {
-			return Unsat, nil, "simp"
+			return Unsat, nil, nil, "simp"
 		}
 	}
 	script, syms := Script(asserts)
@@ -350,7 +356,7 @@ func (pf *Portfolio) Check(asserts []*Term, timeoutMs int, wantModel bool) (Verd
 	if r, ok := pf.cache[key]; ok {
 		pf.mu.Unlock()
 		atomic.AddInt64(&pf.Stats.CacheHits, 1)
-		return r.v, r.model, r.who
+		return r.v, r.model, syms, r.who
 	}
 	pf.mu.Unlock()
 	atomic.AddInt64(&pf.Stats.Queries, 1)
@@ -431,5 +437,5 @@ func (pf *Portfolio) Check(asserts []*Term, timeoutMs int, wantModel bool) (Verd
 	pf.mu.Lock()
 	pf.cache[key] = final
 	pf.mu.Unlock()
-	return final.v, final.model, final.who
+	return final.v, final.model, syms, final.who
 }
